@@ -38,6 +38,9 @@
 // TODO: Other sizes? Does anyone need more than 5 slots?
 
 use std::cell::UnsafeCell;
+#[cfg(sighook_verif)]
+use sighook_shim::sync::atomic::{AtomicU16, Ordering};
+#[cfg(not(sighook_verif))]
 use std::sync::atomic::{AtomicU16, Ordering};
 
 const SLOTS: usize = 5;
@@ -135,6 +138,8 @@ impl<T> Channel<T> {
     /// If the value doesn't fit, it is silently dropped. Never blocks.
     pub fn send(&self, val: T) {
         if let Some(empty_idx) = dequeue(&self.empty) {
+            #[cfg(sighook_verif)]
+            sighook_shim::hook::cell_access(self.storage[empty_idx as usize - 1].get() as usize, true);
             unsafe { *self.storage[empty_idx as usize - 1].get() = Some(val) };
             enqueue(&self.full, empty_idx);
         }
@@ -145,6 +150,8 @@ impl<T> Channel<T> {
     /// Or returns `None` if the channel is empty. Never blocks.
     pub fn recv(&self) -> Option<T> {
         dequeue(&self.full).map(|idx| {
+            #[cfg(sighook_verif)]
+            sighook_shim::hook::cell_access(self.storage[idx as usize - 1].get() as usize, false);
             let result = unsafe { &mut *self.storage[idx as usize - 1].get() }
                 .take()
                 .expect("Full slot with nothing in it");
